@@ -2,6 +2,13 @@
 // (K x = lambda K_G x in buckling mode) and the vectors are orthonormal in the inner product of the positive-definite
 // matrix of the pencil (B, or K in buckling mode), under any init()/compute() history.
 //
+// Asserted after EVERY compute(), for every returned pair, with all reference quantities from long double decompositions:
+//   ||A x - lambda B x||_2 <= tol * C_mode + 64 n eps (1+restarts) kappa_F G_mode ||x||        (K x - lambda K_G x in buckling mode)
+//   max |X^T B X - I|     <= 64 n eps (1+restarts) max(kappa(B), kappa_F)                      (X^T K X in buckling mode)
+// C_mode is the exact image of the documented convergence test |est| ||f||_W < tol max(eps^(2/3), |nu|) under each back-transformation
+// (see check_pairs), kappa_F the condition number of the matrix that is factorized (B, or A - sigma B), G_mode the rounding scale
+// (||A|| + |lambda| ||B|| plus, where the mode itself works with something larger, that quantity; see check_pairs and props_d/c03.py).
+//
 // One translation unit per real scalar type (VF_REAL). C03_PART selects the solver family compiled into the unit
 // (0 = both, 1 = SymGEigsSolver {Cholesky, RegularInverse}, 2 = SymGEigsShiftSolver {ShiftInvert, Buckling, Cayley});
 // C03_SPARSE = 0 keeps the dense-only subset of the instantiation list (float / long double units).
@@ -22,6 +29,9 @@
 #include "vf/solverkit.hpp"
 #include "vf/runner.hpp"
 #include <functional>
+#include <algorithm>
+#include <chrono>
+#include <iostream>
 
 #ifndef VF_REAL
 #define VF_REAL double
@@ -500,11 +510,17 @@ struct Run
 };
 static void label_operand(vf::Case& c, bool sparse, int uplo, int flags)
 {
+    // one label per case, however many operands have the attribute
+    auto once = [&c](const char* k) {
+        if (std::find(c.classes.begin(), c.classes.end(), std::string(k)) == c.classes.end())
+            c.cls(k);
+    };
     if (uplo == Eigen::Upper)
-        c.cls("Upper");
+        once("Upper");
     if (flags == Eigen::RowMajor)
-        c.cls("RowMajor");
-    (void) sparse;
+        once("RowMajor");
+    if (sparse)
+        once("some_sparse_operand");
 }
 static void cholesky_status(bool ok, const Problem& pb, vf::Case& c)
 {
@@ -841,6 +857,8 @@ static void run_case(vf::Draw& d, vf::Case& c)
     c.sfeat["inst"] = inst->name;
     c.sfeat["mode"] = MODE_NAMES[pb.mode];
     c.feat["scale_exp"] = (double) R.scale_exp;
+    if (n >= 12)
+        c.cls("n>=12");
     if (ncv == nev + 1)
         c.cls("ncv=nev+1");
     if (ncv == n)
@@ -967,6 +985,18 @@ static void run_case(vf::Draw& d, vf::Case& c)
         std::cerr.precision(21);
         std::cerr << "A=\n" << pb.A << "\nP=\n" << pb.P << "\nsigma=" << pb.sigma << "\nref=" << pb.ref.transpose() << "\n";
     }
+    auto t_start = std::chrono::steady_clock::now();
+    struct SlowReport
+    {
+        std::chrono::steady_clock::time_point t0;
+        vf::Case* c;
+        ~SlowReport()
+        {
+            double sec = std::chrono::duration<double>(std::chrono::steady_clock::now() - t0).count();
+            if (sec > 0.5 && std::getenv("VF_DEBUG"))
+                std::fprintf(stderr, "SLOW %.2fs | %s\n", sec, c->desc.c_str());
+        }
+    } slow_report{t_start, &c};
     try
     {
         inst->fn(run);
